@@ -13,9 +13,10 @@ RULE = (
 )
 TRUSTED = ["models: lean/SRVerif/Model/{Rec,LabelDP,Solvers}.lean; specification: lean/SRVerif/Spec/Opt.lean"]
 ASSUMPTIONS = ["coherent cost vectors"]
-OPEN = ["the link between decoded table solutions and ALL optimal valid solutions is C01/C02/C03's open optimality "
-        "statement; proved here: the result entry keeps exactly the arg-minima, duplicate-free, equal cost, "
-        "empty iff no candidate"]
+OPEN = [
+    "'any' returns a member of the 'all' set: proved at entry level (C16_any), decided end-to-end by this check",
+    "unordered solvers: 'all' = canonical optimal set (Properties/C05Un.lean when present)",
+]
 
 CORPUS = [
     # fixed: F-THL-LOSSDIST (co-optimal solution dropped)
